@@ -5,16 +5,22 @@
 //
 // usage: instrument <dir of the copy>
 //
-// For every statement `X.mx.Lock()` / `X.mx.RLock()` in the root package that is
-// not directly preceded by a verifhook.Yield call it inserts
-// `verifhook.Yield("auto.W:<func>#<n>", X)` (auto.R for RLock) before it.
+// For every statement `L.Lock()` / `L.RLock()` of the root package, where L is a
+// field or variable whose name says it is a mutex (mx, mu, …Mutex, …Lock; the
+// runner's `r.mx` today, any lock a changed version adds):
 //
-// Every acquisition is followed by `verifhook.Skip("auto.lockedW", X)` (lockedR)
-// and every release by `verifhook.Skip("auto.unlocked", X)` (notifications, they
-// never park), for `defer X.mx.Unlock()` as a defer registered just before it. With both the driver knows at every moment which
-// goroutine holds the runner lock, so a goroutine that blocks for ever while
-// holding it is reported as a deadlock of the system instead of hanging the
-// simulator (DESIGN §12.2).
+//   - a `verifhook.Yield` directly in front of it gets two more arguments,
+//     "\x00lockW" (lockR) and &L, so that the simulator knows which lock the
+//     goroutine parked there is about to take and in which mode;
+//   - if there is none, `verifhook.Yield("auto.W:<func>#<n>", X, "\x00lockW", &L)`
+//     is inserted (X = what L is a field of);
+//   - it is followed by `verifhook.Skip("auto.lockedW", X, &L)`, and every
+//     `L.Unlock()` / `L.RUnlock()` by `verifhook.Skip("auto.unlocked", X, &L)`
+//     (`defer L.Unlock()`: a defer registered just before it, so it runs after).
+//     These notifications never park; they run on the goroutine itself and give
+//     the driver the exact set of holders of every lock. A goroutine that blocks
+//     for ever while holding one is then reported as a deadlock of the system
+//     instead of hanging the simulator (DESIGN §12.2).
 package main
 
 import (
@@ -26,6 +32,7 @@ import (
 	"go/token"
 	"os"
 	"path/filepath"
+	"regexp"
 	"strconv"
 	"strings"
 )
@@ -47,59 +54,67 @@ func isYield(s ast.Stmt) bool {
 	return ok && id.Name == "verifhook" && sel.Sel.Name == "Yield"
 }
 
-// lockCall returns (receiver of .mx, "W"/"R") if s is `recv.mx.Lock()` or `recv.mx.RLock()`.
-func lockCall(s ast.Stmt) (ast.Expr, string) {
-	es, ok := s.(*ast.ExprStmt)
-	if !ok {
-		return nil, ""
+var mutexName = regexp.MustCompile(`(?i)(^|[a-z_])(mx|mu|mutex|lock)$`)
+
+// mutexExpr: is e a field or variable that is named like a mutex? Returns what it is a field of (nil for a variable).
+func mutexExpr(e ast.Expr) (owner ast.Expr, ok bool) {
+	switch x := e.(type) {
+	case *ast.SelectorExpr:
+		if id, isID := x.X.(*ast.Ident); isID && id.Name == "verifhook" {
+			return nil, false
+		}
+		if mutexName.MatchString(x.Sel.Name) {
+			return x.X, true
+		}
+	case *ast.Ident:
+		if mutexName.MatchString(x.Name) {
+			return ast.NewIdent("nil"), true
+		}
 	}
-	call, ok := es.X.(*ast.CallExpr)
-	if !ok || len(call.Args) != 0 {
-		return nil, ""
+	return nil, false
+}
+
+// lockOp classifies call as L.Lock() "W", L.RLock() "R", L.Unlock()/L.RUnlock() "U".
+func lockOp(call *ast.CallExpr) (lock, owner ast.Expr, op string) {
+	if call == nil || len(call.Args) != 0 {
+		return nil, nil, ""
 	}
 	sel, ok := call.Fun.(*ast.SelectorExpr)
 	if !ok {
-		return nil, ""
+		return nil, nil, ""
 	}
-	kind := ""
 	switch sel.Sel.Name {
 	case "Lock":
-		kind = "W"
+		op = "W"
 	case "RLock":
-		kind = "R"
+		op = "R"
+	case "Unlock", "RUnlock":
+		op = "U"
 	default:
-		return nil, ""
+		return nil, nil, ""
 	}
-	mx, ok := sel.X.(*ast.SelectorExpr)
-	if !ok || mx.Sel.Name != "mx" {
-		return nil, ""
+	owner, ok = mutexExpr(sel.X)
+	if !ok {
+		return nil, nil, ""
 	}
-	return mx.X, kind
+	return sel.X, owner, op
 }
 
-// unlockCall reports whether call is `recv.mx.Unlock()` or `recv.mx.RUnlock()`.
-func unlockCall(call *ast.CallExpr) bool {
-	if call == nil || len(call.Args) != 0 {
-		return false
+func stmtCall(s ast.Stmt) *ast.CallExpr {
+	if es, ok := s.(*ast.ExprStmt); ok {
+		if call, ok := es.X.(*ast.CallExpr); ok {
+			return call
+		}
 	}
-	sel, ok := call.Fun.(*ast.SelectorExpr)
-	if !ok || (sel.Sel.Name != "Unlock" && sel.Sel.Name != "RUnlock") {
-		return false
-	}
-	mx, ok := sel.X.(*ast.SelectorExpr)
-	return ok && mx.Sel.Name == "mx"
+	return nil
 }
 
-// unlockRecv returns X of `X.mx.Unlock()`.
-func unlockRecv(call *ast.CallExpr) ast.Expr {
-	return call.Fun.(*ast.SelectorExpr).X.(*ast.SelectorExpr).X
-}
+func addrOf(e ast.Expr) ast.Expr { return &ast.UnaryExpr{Op: token.AND, X: e} }
 
-func note(what string, recv ast.Expr) *ast.CallExpr {
-	return &ast.CallExpr{
-		Fun:  &ast.SelectorExpr{X: ast.NewIdent("verifhook"), Sel: ast.NewIdent("Skip")},
-		Args: []ast.Expr{&ast.BasicLit{Kind: token.STRING, Value: strconv.Quote(what)}, recv},
-	}
+func strLit(v string) ast.Expr { return &ast.BasicLit{Kind: token.STRING, Value: strconv.Quote(v)} }
+
+func hookCall(fn string, args ...ast.Expr) *ast.CallExpr {
+	return &ast.CallExpr{Fun: &ast.SelectorExpr{X: ast.NewIdent("verifhook"), Sel: ast.NewIdent(fn)}, Args: args}
 }
 
 func main() {
@@ -148,36 +163,37 @@ func main() {
 			rewrite = func(list []ast.Stmt) []ast.Stmt {
 				var out []ast.Stmt
 				for i, s := range list {
-					if recv, kind := lockCall(s); recv != nil {
-						if i == 0 || !isYield(list[i-1]) {
-							n++
-							label := "auto." + kind + ":" + fn.Name.Name + "#" + strconv.Itoa(n)
-							out = append(out, &ast.ExprStmt{X: &ast.CallExpr{
-								Fun:  &ast.SelectorExpr{X: ast.NewIdent("verifhook"), Sel: ast.NewIdent("Yield")},
-								Args: []ast.Expr{&ast.BasicLit{Kind: token.STRING, Value: strconv.Quote(label)}, recv},
-							}})
-							changed = true
-							inserted++
-						}
-					}
-					if ds, ok := s.(*ast.DeferStmt); ok && unlockCall(ds.Call) {
-						// registered before, therefore run after the unlock
-						out = append(out, &ast.DeferStmt{Call: note("auto.unlocked", unlockRecv(ds.Call))})
-						changed = true
-						notes++
-					}
-					out = append(out, s)
-					if recv, kind := lockCall(s); recv != nil {
-						out = append(out, &ast.ExprStmt{X: note("auto.locked"+kind, recv)})
-						changed = true
-						notes++
-					}
-					if es, ok := s.(*ast.ExprStmt); ok {
-						if call, ok := es.X.(*ast.CallExpr); ok && unlockCall(call) {
-							out = append(out, &ast.ExprStmt{X: note("auto.unlocked", unlockRecv(call))})
+					if ds, ok := s.(*ast.DeferStmt); ok {
+						if lock, owner, op := lockOp(ds.Call); op == "U" {
+							// registered before, therefore run after the unlock
+							out = append(out, &ast.DeferStmt{Call: hookCall("Skip", strLit("auto.unlocked"), owner, addrOf(lock))})
 							changed = true
 							notes++
 						}
+					}
+					lock, owner, op := lockOp(stmtCall(s))
+					if op == "W" || op == "R" {
+						marker := strLit("\x00lock" + op)
+						if i > 0 && isYield(list[i-1]) {
+							y := stmtCall(out[len(out)-1])
+							y.Args = append(y.Args, marker, addrOf(lock))
+						} else {
+							n++
+							label := "auto." + op + ":" + fn.Name.Name + "#" + strconv.Itoa(n)
+							out = append(out, &ast.ExprStmt{X: hookCall("Yield", strLit(label), owner, marker, addrOf(lock))})
+							inserted++
+						}
+						changed = true
+					}
+					out = append(out, s)
+					switch op {
+					case "W", "R":
+						out = append(out, &ast.ExprStmt{X: hookCall("Skip", strLit("auto.locked"+op), owner, addrOf(lock))})
+						notes++
+					case "U":
+						out = append(out, &ast.ExprStmt{X: hookCall("Skip", strLit("auto.unlocked"), owner, addrOf(lock))})
+						changed = true
+						notes++
 					}
 				}
 				return out
@@ -212,5 +228,5 @@ func main() {
 			os.Exit(2)
 		}
 	}
-	fmt.Printf("instrument: %d hook points inserted, %d unlock notifications\n", inserted, notes)
+	fmt.Printf("instrument: %d hook points inserted, %d lock/unlock notifications\n", inserted, notes)
 }
